@@ -76,8 +76,87 @@ func xh(s string) string { return "x" + hex.EncodeToString([]byte(s)) }
 type gv struct{ sx, ty string } // S-expression of a value and of its dynamic type ("" for nil)
 
 type vgen struct {
-	r *rng.R
-	s *ast.Schema
+	r    *rng.R
+	s    *ast.Schema
+	dist map[string]int // generator distribution (printed and written into the evidence)
+}
+
+func (g *vgen) count(k string) {
+	if g.dist != nil {
+		g.dist[k]++
+	}
+}
+
+// element types of the typed slices / typed maps that are generated on purpose (besides the ones
+// that arise when all items happen to share a dynamic type)
+var elemKinds = []string{"bool", "int", "int8", "int16", "int32", "int64", "uint", "uint8", "uint16", "uint32", "uint64",
+	"f32", "f64", "str", "jn", "I", "(sl I)", "(sl int)", "(sl str)", "(sl f64)", "(sl (sl int))", "(m I)", "(m int)", "(m str)", "(m f32)", "(m (sl int))", "(sl (m I))", "(sl (m f64))"}
+
+// typedValue builds a value whose dynamic type is exactly ty (for "I": anything, nil included).
+// keys: the map keys to use (declared field names of the input object met here, if any).
+func (g *vgen) typedValue(ty string, keys []string, d int) gv {
+	switch ty {
+	case "I":
+		return g.junk(d + 2)
+	case "bool":
+		return bo(g.r.Bool())
+	case "int", "int8", "int16", "int32", "int64":
+		return g.intOfKind(ty)
+	case "uint", "uint8", "uint16", "uint32", "uint64":
+		return g.uintOfKind(ty)
+	case "f32":
+		return fl("f32", rng.Pick(g.r, []string{"1.5", "2", "0", "-1", "1e+10", "NaN"}))
+	case "f64":
+		return fl("f64", rng.Pick(g.r, f64Texts))
+	case "str":
+		return st(rng.Pick(g.r, []string{"", "x", "RED", "12", "1.5", "b", "red", "__typename"}))
+	case "jn":
+		return jn(rng.Pick(g.r, jnTexts))
+	}
+	inner := strings.TrimSuffix(ty[strings.Index(ty, " ")+1:], ")")
+	if strings.HasPrefix(ty, "(sl ") {
+		n := g.r.Intn(3)
+		if d >= 4 {
+			n = g.r.Intn(2)
+		}
+		var sb strings.Builder
+		sb.WriteString("(sl " + inner)
+		for i := 0; i < n; i++ {
+			sb.WriteString(" " + g.typedValue(inner, keys, d+1).sx)
+		}
+		sb.WriteString(")")
+		return gv{sb.String(), ty}
+	}
+	// (m inner)
+	if len(keys) == 0 {
+		keys = []string{"a", "b", "c", "v"}
+	}
+	var sb strings.Builder
+	sb.WriteString("(m " + inner)
+	for _, k := range keys {
+		if g.r.Chance(2, 3) {
+			x := g.typedValue(inner, nil, d+1)
+			if x.sx == "nil" && inner != "I" {
+				continue
+			}
+			sb.WriteString(" (" + xh(k) + " " + x.sx + ")")
+		}
+	}
+	sb.WriteString(")")
+	return gv{sb.String(), ty}
+}
+
+func jnClass(t string) string {
+	if _, err := strconv.ParseInt(t, 10, 64); err == nil {
+		return "integer text"
+	}
+	if _, err := strconv.ParseFloat(t, 64); err == nil {
+		return "float text (not an integer)"
+	}
+	if _, err := strconv.ParseFloat(t, 64); err != nil && strings.Contains(err.Error(), "range") {
+		return "number out of float64 range"
+	}
+	return "not a number"
 }
 
 var intPool = []string{"0", "1", "-1", "7", "12", "2147483647", "2147483648", "-2147483649", "9223372036854775807", "-9223372036854775808"}
@@ -125,9 +204,13 @@ func (g *vgen) numberLike() gv {
 	case 8:
 		return fl("f32", rng.Pick(g.r, []string{"1.5", "2", "0", "-1", "1e+10", "NaN"}))
 	case 9, 10:
-		return jn(rng.Pick(g.r, jnTexts))
+		t := rng.Pick(g.r, jnTexts)
+		g.count("json.Number: " + jnClass(t))
+		return jn(t)
 	default:
-		return st(rng.Pick(g.r, numStrTexts))
+		t := rng.Pick(g.r, numStrTexts)
+		g.count("numeric string: " + jnClass(t))
+		return st(t)
 	}
 }
 
@@ -171,6 +254,7 @@ func (g *vgen) slice(items []gv) gv {
 		}
 		if same {
 			et = items[0].ty
+			g.count("typed slice (items share a type): []" + et)
 		}
 	} else if len(items) == 0 && g.r.Chance(1, 6) {
 		et = rng.Pick(g.r, []string{"int", "str", "jn", "(m I)", "(sl I)", "f64"})
@@ -195,6 +279,7 @@ func (g *vgen) mapOf(keys []string, vals []gv) gv {
 		}
 		if same {
 			et = vals[0].ty
+			g.count("typed map (entries share a type): map[string]" + et)
 		}
 	}
 	var sb strings.Builder
@@ -212,15 +297,29 @@ func (g *vgen) mapOf(keys []string, vals []gv) gv {
 }
 
 func (g *vgen) value(t *ast.Type, d int) gv {
+	g.count(fmt.Sprintf("values generated at depth %d", d))
 	if g.r.Chance(1, 14) {
+		g.count(fmt.Sprintf("defect at depth %d: value of a random kind", d))
 		return g.junk(d)
 	}
 	if (!t.NonNull && g.r.Chance(1, 8)) || (t.NonNull && g.r.Chance(1, 30)) {
+		if t.NonNull {
+			g.count(fmt.Sprintf("defect at depth %d: null at a non-null position", d))
+		} else {
+			g.count(fmt.Sprintf("null at a nullable position, depth %d", d))
+		}
 		return gv{"nil", ""}
 	}
 	if t.Elem != nil {
 		if g.r.Chance(1, 6) {
+			g.count(fmt.Sprintf("single value where a list is expected, depth %d", d))
 			return g.value(t.Elem, d) // a single value where a list is expected
+		}
+		if g.r.Chance(1, 7) {
+			// a typed slice of a deliberately chosen element type (fitting or not)
+			et := rng.Pick(g.r, elemKinds)
+			g.count("typed slice on purpose: []" + et)
+			return g.typedValue("(sl "+et+")", nil, d)
 		}
 		n := g.r.Intn(4)
 		if d >= 3 {
@@ -274,6 +373,22 @@ func (g *vgen) value(t *ast.Type, d int) gv {
 			return g.junk(d)
 		}
 	case ast.InputObject:
+		if g.r.Chance(1, 6) {
+			// a typed map of a deliberately chosen element type over the declared field names
+			et := rng.Pick(g.r, elemKinds)
+			g.count("typed map on purpose: map[string]" + et)
+			var names []string
+			for _, f := range def.Fields {
+				names = append(names, f.Name)
+			}
+			if g.r.Chance(1, 10) {
+				names = append(names, "__typename")
+			}
+			return g.typedValue("(m "+et+")", names, d)
+		}
+		if def.Name == "Rec" {
+			g.count(fmt.Sprintf("recursive input object Rec at depth %d", d))
+		}
 		var keys []string
 		var vals []gv
 		for _, f := range def.Fields {
@@ -290,14 +405,17 @@ func (g *vgen) value(t *ast.Type, d int) gv {
 			}
 		}
 		if g.r.Chance(1, 15) {
+			g.count(fmt.Sprintf("defect at depth %d: undeclared key", d))
 			keys = append(keys, "zzz")
 			vals = append(vals, g.junk(4))
 		}
 		if g.r.Chance(1, 15) {
+			g.count(fmt.Sprintf("key __typename at depth %d", d))
 			keys = append(keys, "__typename")
 			vals = append(vals, st("Inner"))
 		}
 		if g.r.Chance(1, 40) {
+			g.count(fmt.Sprintf("defect at depth %d: undeclared key", d))
 			keys = append(keys, "yyy", "xxx")
 			vals = append(vals, g.junk(4), g.junk(4))
 		}
@@ -317,7 +435,24 @@ func (g *vgen) junkScalar() gv {
 	}
 }
 
-func (g *vgen) varsMap(t *ast.Type) string {
+func (g *vgen) varsMap(t *ast.Type, multi bool) string {
+	if multi {
+		// operation ($a: Int = 1, $v: T, $z: [Int!])
+		var sb strings.Builder
+		sb.WriteString("(m I")
+		if g.r.Chance(1, 2) {
+			sb.WriteString(" (" + xh("a") + " " + g.value(&ast.Type{NamedType: "Int"}, 1).sx + ")")
+		}
+		if g.r.Chance(4, 5) {
+			sb.WriteString(" (" + xh("v") + " " + g.value(t, 0).sx + ")")
+		}
+		if g.r.Chance(1, 2) {
+			sb.WriteString(" (" + xh("z") + " " + g.value(&ast.Type{Elem: &ast.Type{NamedType: "Int", NonNull: true}}, 1).sx + ")")
+		}
+		sb.WriteString(")")
+		g.count("variables map for a 3-variable operation")
+		return sb.String()
+	}
 	switch {
 	case g.r.Chance(1, 25):
 		return "(m I)"
@@ -438,11 +573,12 @@ type varsStats struct {
 	panicCount                                      map[string]int
 	specViol                                        map[string]int
 	specEx                                          map[string]string
+	outcome                                         map[string]int // what happened to the generated cases
+	strict                                          map[string]int // informational: strict GraphQL reading
+	judged                                          int
 }
 
 func typeSexp(t *ast.Type) string { var s impl.Sx; s.Type(t); return s.String() }
-
-var leniencyNames = []string{"enumFold(R14b)", "typenameKey(R14c)", "numericStrings", "fractionalInt", "jsonNumberAsString", "flatNested(R14d)"}
 
 func (c *Ctx) runVarsCases(cases []varsCase, st *varsStats) {
 	reqs := make([]string, len(cases))
@@ -473,16 +609,18 @@ func (c *Ctx) runVarsCases(cases []varsCase, st *varsStats) {
 	t0 = time.Now()
 	model := c.Driver.Map(dreqs)
 	tDriver += time.Since(t0)
-	// direct spec checks: one `judge` request per case
+	// direct spec checks: one `judge` request per case.  Readings (bits: typenameKey single
+	// strictNumStr strictFracInt strictJsonNumber), results: the C14 specification, … with the
+	// R14c exception, then (informational) the strict GraphQL reading of the built-in scalars and
+	// its three classes one by one; supplied values: Coercible, … with the R14c exception.
 	var sreqs []string
 	type sref struct {
 		ci           int
 		resIx, supIx []int
 	}
 	var srefs []sref
-	// strict, legacy, the six single leniencies, and "afterR14d" (all but flatNested)
-	const resBits = "000000,111111,100000,010000,001000,000100,000010,000001,111110"
-	const supBits = "000001,111111"
+	const resBits = "00000,10000,10111,10100,10010,10001"
+	const supBits = "01000,11000"
 	for k, i := range dix {
 		cs := cases[i]
 		mo := strings.Split(model[k], ";")
@@ -512,6 +650,9 @@ func (c *Ctx) runVarsCases(cases []varsCase, st *varsStats) {
 					}
 					st.errMsgs[msg]++
 				}
+				if len(f) > 2 {
+					st.outcome[fmt.Sprintf("error reported at path length %d", strings.Count(strings.Join(f[2:], " "), " ")+1)]++
+				}
 			case strings.HasPrefix(g, "PANIC"):
 				st.panic_++
 				b, _ := impl.UnhexW(strings.TrimPrefix(g, "PANIC "))
@@ -536,6 +677,21 @@ func (c *Ctx) runVarsCases(cases []varsCase, st *varsStats) {
 						if sv := sup.MapEntry("v"); sv != nil {
 							supVals = append(supVals, sv.String())
 							supIx = append(supIx, j)
+							rs, ss := rv.String(), sv.String()
+							switch {
+							case rs == ss:
+								st.outcome["returned value identical to the supplied one"]++
+							default:
+								st.outcome["returned value differs from the supplied one (coerced)"]++
+							}
+							if strings.Count(rs, "(m I") > strings.Count(ss, "(m I") {
+								st.outcome["a typed map was copied into map[string]interface{}"]++
+							}
+							if strings.Count(rs, "(sl ") > strings.Count(ss, "(sl ") {
+								st.outcome["a single value was wrapped into a list"]++
+							}
+						} else {
+							st.outcome["variable absent: default / nothing returned"]++
 						}
 					}
 				}
@@ -549,59 +705,48 @@ func (c *Ctx) runVarsCases(cases []varsCase, st *varsStats) {
 	t0 = time.Now()
 	verdicts := c.Driver.Map(sreqs)
 	tSpec += time.Since(t0)
+	note := func(class, ex string) {
+		st.specViol[class]++
+		if old, ok := st.specEx[class]; !ok || len(ex) < len(old) {
+			st.specEx[class] = ex
+		}
+	}
 	for k, v := range verdicts {
 		r := srefs[k]
 		groups := strings.Split(v, "|")
-		if len(groups) != 11 || len(groups[0]) != len(r.resIx) || len(groups[9]) != len(r.supIx) {
+		if len(groups) != 8 || len(groups[0]) != len(r.resIx) || len(groups[6]) != len(r.supIx) {
 			c.Report("correspondence", "judge-reply-shape", "judge reply: "+v[:min(200, len(v))], nil)
 			continue
 		}
 		cs := cases[r.ci]
 		for x, vi := range r.resIx {
 			ex := fmt.Sprintf("$v: %s  vars %s → %s", cs.typ.String(), cs.vals[vi], goObs[r.ci][vi])
-			if groups[0][x] == '1' {
-				continue
+			st.judged++
+			switch {
+			case groups[0][x] == '1':
+			case groups[1][x] == '1':
+				note("typenameKey(R14c)", ex)
+			default:
+				note("result-does-not-conform", ex)
 			}
-			st.specViol["C14_conforms: returned value does not conform (strict)"]++
-			if groups[1][x] != '1' {
-				st.specViol["C14_conforms: returned value does not conform EVEN WITH every legacy leniency"]++
-				if _, ok := st.specEx["beyond-legacy-result"]; !ok {
-					st.specEx["beyond-legacy-result"] = ex
-				}
-			}
-			if groups[8][x] != '1' && groups[1][x] == '1' {
-				// conforms only when flatNested is granted to the RESULT: R14d (repaired by r14d.patch)
-				st.specViol["C14_conforms: returned value needs flatNested (does not conform with the five other leniencies)"]++
-				if old, ok := st.specEx["result-needs-flatNested(R14d)"]; !ok || len(ex) < len(old) {
-					st.specEx["result-needs-flatNested(R14d)"] = ex
-				}
-			}
-			any := false
-			for b := 0; b < 6; b++ {
-				if groups[2+b][x] == '1' {
-					any = true
-					name := "  … explained by the single leniency " + leniencyNames[b]
-					st.specViol[name]++
-					if old, ok := st.specEx[name]; !ok || len(ex) < len(old) {
-						st.specEx[name] = ex
+			// informational: the strict GraphQL reading of the built-in scalars
+			if groups[1][x] == '1' && groups[2][x] != '1' {
+				st.strict["returned values that conform to C14 but not to strict GraphQL input coercion"]++
+				for b, name := range []string{"numericStrings (a string that spells a number at Int/Float)", "fractionalInt (a non-integral float at Int)", "jsonNumberAsString (a json.Number at String/ID/enum)"} {
+					if groups[3+b][x] != '1' {
+						st.strict["  … class "+name]++
 					}
 				}
-			}
-			if !any && groups[1][x] == '1' {
-				st.specViol["  … explained only by a combination of leniencies"]++
 			}
 		}
 		for x, vi := range r.supIx {
 			ex := fmt.Sprintf("$v: %s  vars %s → %s", cs.typ.String(), cs.vals[vi], goObs[r.ci][vi])
-			if groups[9][x] == '1' {
-				continue
-			}
-			st.specViol["C14_rejects: values returned although the supplied value is not coercible (strict)"]++
-			if groups[10][x] != '1' {
-				st.specViol["C14_rejects: values returned although the supplied value is not coercible EVEN WITH every legacy leniency"]++
-				if _, ok := st.specEx["beyond-legacy-supplied"]; !ok {
-					st.specEx["beyond-legacy-supplied"] = ex
-				}
+			switch {
+			case groups[6][x] == '1':
+			case groups[7][x] == '1':
+				note("typenameKey(R14c)", ex)
+			default:
+				note("accepted-although-not-coercible", ex)
 			}
 		}
 	}
@@ -641,8 +786,9 @@ func checkVarsHalf(c *Ctx, report bool) {
 		c.Report("runtime", "vars-schema", err.Error(), nil)
 		return
 	}
-	g := &vgen{r: c.R, s: schema}
-	st := &varsStats{errMsgs: map[string]int{}, panics: map[string]string{}, panicCount: map[string]int{}, specViol: map[string]int{}, specEx: map[string]string{}}
+	g := &vgen{r: c.R, s: schema, dist: map[string]int{}}
+	st := &varsStats{errMsgs: map[string]int{}, panics: map[string]string{}, panicCount: map[string]int{}, specViol: map[string]int{}, specEx: map[string]string{},
+		outcome: map[string]int{}, strict: map[string]int{}}
 	perType := c.Pick(120, 900)
 	if v := os.Getenv("VARS_PER_TYPE"); v != "" {
 		perType, _ = strconv.Atoi(v)
@@ -654,24 +800,26 @@ func checkVarsHalf(c *Ctx, report bool) {
 		cases = cases[:0]
 	}
 	for i, t := range types {
-		mk := func(doc string, n int) {
+		mk := func(doc string, n int, multi bool) {
 			for n > 0 {
 				k := min(n, batch)
 				vals := make([]string, k)
 				for j := range vals {
-					vals[j] = g.varsMap(t)
+					vals[j] = g.varsMap(t, multi)
 				}
 				cases = append(cases, varsCase{sdl, doc, t, vals})
 				n -= k
 			}
 		}
-		mk(fmt.Sprintf("query Q($v: %s) { v%d(x: $v) }", t.String(), i), perType)
+		mk(fmt.Sprintf("query Q($v: %s) { v%d(x: $v) }", t.String(), i), perType, false)
+		// several variables in one operation: $v between a variable with a default and a list variable
+		mk(fmt.Sprintf("query Q($a: Int = 1, $v: %s, $z: [Int!]) { v%d(x: $v) args(i: $a, l: $z) }", t.String(), i), perType/6, true)
 		// the same variable with default values: mostly absent / null
 		for d := 0; d < 3; d++ {
 			doc := fmt.Sprintf("query Q($v: %s = %s) { v%d(x: $v) }", t.String(), g.constLit(t, 0), i)
 			vals := []string{"(m I)", "(m I (" + xh("v") + " nil))", "(m I (" + xh("w") + " (b 1)))"}
 			for j := 0; j < perType/12; j++ {
-				vals = append(vals, g.varsMap(t))
+				vals = append(vals, g.varsMap(t, false))
 			}
 			cases = append(cases, varsCase{sdl, doc, t, vals})
 		}
@@ -698,39 +846,54 @@ func checkVarsHalf(c *Ctx, report bool) {
 	for _, l := range strings.Split(probe, "\t") {
 		fmt.Println("  ", l)
 	}
-	printCounts("direct specification checks on the values Go returned (counts of triples):", st.specViol)
+	printCounts("generator distribution (values generated, by feature):", g.dist)
+	printCounts("what happened to the generated cases:", st.outcome)
+	fmt.Printf("direct specification checks (Conforms on every returned value, Coercible on its supplied value): %d returned values judged\n", st.judged)
+	printCounts("  specification violations (counts of triples):", st.specViol)
 	ek := make([]string, 0, len(st.specEx))
 	for k := range st.specEx {
 		ek = append(ek, k)
 	}
 	sort.Strings(ek)
 	for _, k := range ek {
-		fmt.Printf("  example [%s]: %s\n", strings.TrimSpace(k), st.specEx[k])
+		fmt.Printf("  example [%s]: %s\n", k, st.specEx[k])
 	}
+	printCounts("informational (NOT part of C14, never reported): strict GraphQL input coercion of built-in scalars", st.strict)
 	c.Ev.Evals = st.cases
-	c.Ev.Rule = "vartypes: 12 base types x list depth <= 3 x every non-null pattern; type-directed values with injected defects"
+	c.Ev.Rule = "vartypes: 12 base types (5 built-in scalars, custom scalar, enum, 5 input objects incl. recursive) x list depth <= 3 x every non-null pattern; type-directed values (typed slices/maps of 28 element types, json.Number forms) with defects injected at every depth; 1- and 3-variable operations, defaults"
+	c.Ev.Extra["generator_distribution"] = g.dist
+	c.Ev.Extra["case_outcomes"] = st.outcome
+	c.Ev.Extra["go_outcomes"] = map[string]int{"ok": st.ok, "err": st.err, "panic": st.panic_}
+	c.Ev.Extra["returned_values_judged"] = st.judged
+	c.Ev.Extra["strict_graphql_reading_informational"] = st.strict
+	c.Ev.Extra["error_messages"] = st.errMsgs
 	if !report {
 		return
 	}
 	for _, k := range pk {
-		sig := "vars-panic:other"
-		switch {
-		case strings.Contains(k, "reflect.Value.Type on zero Value"):
-			sig = "vars-panic:null-item-meets-list-type(R14a)"
-		case strings.Contains(k, "SetMapIndex"):
-			sig = "vars-panic:typed-map-setmapindex-not-assignable"
-		}
-		c.Report("spec", sig, fmt.Sprintf("VariableValues panics (%s), %d cases, e.g. %s", k, st.panicCount[k], st.panics[k]),
+		c.Report("spec", "vars-panic:"+sanitizePanic(k), fmt.Sprintf("VariableValues panics (%s), %d cases, e.g. %s", k, st.panicCount[k], st.panics[k]),
 			map[string]any{"op": "vars", "schema": sdl, "example": st.panics[k], "panic": k})
 	}
 	for _, k := range ek {
-		name := strings.TrimSpace(k)
-		if i := strings.Index(name, "leniency "); i >= 0 {
-			name = name[i+9:]
+		what := "a returned value does not conform to its declared type"
+		if k == "accepted-although-not-coercible" {
+			what = "values were returned although the supplied value cannot conform"
 		}
-		c.Report("spec", "vars-conforms:"+name, fmt.Sprintf("a returned value does not conform to its declared type (%s): %s", strings.TrimSpace(k), st.specEx[k]),
-			map[string]any{"op": "vars", "schema": sdl, "example": st.specEx[k]})
+		for n := 0; n < st.specViol[k]; n++ { // the count of cases shows in the KNOWN-FINDING line
+			c.Report("spec", "vars-conforms:"+k, fmt.Sprintf("%s (%s, %d cases): %s", what, k, st.specViol[k], st.specEx[k]),
+				map[string]any{"op": "vars", "schema": sdl, "example": st.specEx[k]})
+		}
 	}
+}
+
+func sanitizePanic(msg string) string {
+	switch {
+	case strings.Contains(msg, "reflect.Value.Type on zero Value"):
+		return "type-on-zero-value"
+	case strings.Contains(msg, "SetMapIndex"):
+		return "typed-map-setmapindex-not-assignable"
+	}
+	return "other"
 }
 
 func init() {
